@@ -169,6 +169,50 @@ for wi, world in enumerate(WORLDS):
     for (c1, c2) in PAIRS[:8]:
         run_pair(wi, world, c1, c2, False, True)
 
+# ------------------------------------------------------------------------------------------- quantified queries
+from krrood.entity_query_language.entity import set_of as _set_of, entity as _entity
+from krrood.entity_query_language.quantify_entity import an as _an
+from krrood.entity_query_language.result_quantification_constraint import AtMost, AtLeast, Exactly, Range
+
+
+def quantified(world, cond, mk):
+    env = G.Env(world)
+    sel = [env.operand(s) for s in SEL]
+    return env, sel, _an(_set_of(sel, env.build(cond)), quantification=mk)
+
+
+for wi, world in enumerate(WORLDS[:2]):
+    for cond in CONDS[:6]:
+        st, ref = guarded(lambda: alone(world, cond, False, False))
+        if st == "exc" or not ref:
+            continue
+        n = len(ref)
+        for qname, mk in (("Exactly", Exactly(n)), ("AtMost", AtMost(n)), ("AtLeast", AtLeast(n)), ("Range", Range(AtLeast(1), AtMost(n)))):
+            env, sel, q = quantified(world, cond, mk)
+            conv = lambda r, sel=sel: tuple(G.key_of_value(r[x]) for x in sel)
+            st, o = guarded(lambda: step_alternately([iter(q.evaluate()), iter(q.evaluate())], [conv, conv]))
+            inp = {"world": wi, "cond": cond, "quantification": qname, "n": n}
+            rep.case(("quantified", wi, repr(cond), qname))
+            if st == "exc":
+                rep.fail(f"quantified-two-iterators::raised::{type(o).__name__}", f"{qname}({n}) over a query with {n} results, two live iterators stepped alternately: "
+                         f"{type(o).__name__}: {str(o)[:120]}", inp)
+            elif o[0] != ref or o[1] != ref:
+                rep.fail("quantified-two-iterators::content", f"{qname}({n}): iterators gave {len(o[0])} / {len(o[1])} rows, alone {n}", inp)
+            env, sel, q = quantified(world, cond, mk)
+            conv = lambda r, sel=sel: tuple(G.key_of_value(r[x]) for x in sel)
+            it = iter(q.evaluate())
+            guarded(lambda: next(it))
+            st, again = guarded(lambda: [conv(r) for r in q.evaluate()])       # the first iterator is still open
+            if st == "exc":
+                rep.fail(f"quantified-nested::raised::{type(again).__name__}", f"{qname}({n}): a second evaluation while the first is open raised {type(again).__name__}", inp)
+            elif again != ref:
+                rep.fail("quantified-nested::content", f"{qname}({n}): second evaluation gave {len(again)} rows, alone {n}", inp)
+            st, rest = guarded(lambda: [conv(r) for r in it])
+            if st == "exc":
+                rep.fail(f"quantified-resume::raised::{type(rest).__name__}", f"{qname}({n}): resuming the first iterator after another evaluation raised {type(rest).__name__}", inp)
+            elif rest != ref[1:]:
+                rep.fail("quantified-resume::content", f"{qname}({n}): the resumed iterator gave {len(rest)} further rows, expected {n - 1}", inp)
+
 # ------------------------------------------------------------------------------------------- rule queries
 from dataclasses import dataclass
 from krrood.entity_query_language.conclusion import Add
@@ -263,15 +307,117 @@ for name in RULES:
                 if got != ref:
                     rep.fail(f"rule-two-iterators::{'generators' if gens else 'lists'}::{'order' if sorted(got) == sorted(ref) else 'content'}",
                              f"rule tree '{name}', two live iterators stepped alternately, iterator {i}: {len(got)} inferred instances, alone {len(ref)}", dict(inp, schedule="two-iterators"))
-        q = build_rule(name, gens)
-        it = iter(q.evaluate())
-        st, _ = guarded(lambda: next(it))
+        for k in range(1, len(ref) + 1):
+            q = build_rule(name, gens)
+            it = iter(q.evaluate())
+            st, _ = guarded(lambda: [next(it) for _ in range(k)])
+            guarded(it.close)
+            del it
+            st, got = guarded(lambda: [rr(r) for r in q.evaluate()])
+            rep.case(("rule", name, gens, "abandon", k))
+            if st == "exc":
+                rep.fail(f"raised::rule-abandon::{'generators' if gens else 'lists'}", f"{name}: {type(got).__name__}: {got}", inp)
+                break
+            elif got != ref:
+                rep.fail(f"rule-abandon-then-again::{'generators' if gens else 'lists'}::{'order' if sorted(got) == sorted(ref) else 'content'}",
+                         f"rule tree '{name}' abandoned after {k} of {len(ref)} results, then evaluated again: {got}, alone {ref}", dict(inp, schedule=f"abandon-{k}"))
+                break
+# ------------------------------------------------------------------------------------------- a rule over several variables
+from krrood.entity_query_language.predicate import Symbol as _Symbol
+
+
+@dataclass(unsafe_hash=True)
+class Part(_Symbol):
+    name: str
+
+
+@dataclass(unsafe_hash=True)
+class Knob(Part):
+    pass
+
+
+@dataclass(unsafe_hash=True)
+class Joint(_Symbol):
+    parent: Part
+    child: Part
+
+
+@dataclass(unsafe_hash=True)
+class RigidJoint(Joint):
+    pass
+
+
+@dataclass(unsafe_hash=True)
+class HingeJoint(Joint):
+    pass
+
+
+@dataclass(unsafe_hash=True)
+class Furniture(_Symbol):
+    pass
+
+
+@dataclass(unsafe_hash=True)
+class Box(Furniture):
+    knob: Knob
+    part: Part
+
+
+@dataclass(unsafe_hash=True)
+class Flap(Furniture):
+    knob: Knob
+    part: Part
+
+
+_knobs = [Knob(f"knob{i}") for i in range(1, 5)]
+_parts = [Part(f"part{i}") for i in range(1, 5)]
+_PARTS = _knobs + _parts
+_JOINTS = [RigidJoint(_parts[0], _knobs[0]), RigidJoint(_parts[1], _knobs[1]), HingeJoint(_parts[2], _knobs[2]), RigidJoint(_parts[3], _knobs[3])]
+
+
+def build_furniture(with_alternative):
+    part = let(Part, _PARTS, name="part")
+    knob = let(Knob, _PARTS, name="knob")
+    rigid = let(RigidJoint, _JOINTS, name="rigid")
+    hinge = let(HingeJoint, _JOINTS, name="hinge")
+    query = an(entity(furniture := inference(Furniture)(), part == rigid.parent, knob == rigid.child))
+    with query:
+        Add(furniture, inference(Box)(knob=knob, part=part))
+        if with_alternative:
+            with alternative(part == hinge.parent, knob == hinge.child):
+                Add(furniture, inference(Flap)(knob=knob, part=part))
+    return query
+
+
+def fr_(r):
+    return (type(r).__name__, r.knob.name, r.part.name)
+
+
+for with_alt in (False, True):
+    name = "joints" + ("+alternative" if with_alt else "")
+    st, ref = guarded(lambda: [fr_(r) for r in build_furniture(with_alt).evaluate()])
+    if st == "exc":
+        rep.fail(f"raised::rule::{name}", f"{name}: {type(ref).__name__}: {ref}", {"rule": name})
+        continue
+    q = build_furniture(with_alt)
+    for run in range(3):
+        st, got = guarded(lambda: [fr_(r) for r in q.evaluate()])
+        rep.case(("rule", name, "sequential", run))
+        if st == "exc" or got != ref:
+            rep.fail("rule-sequential-again::lists::content", f"rule '{name}' evaluation #{run + 1}: {got if st == 'ok' else type(got).__name__}, a fresh query gives {len(ref)} results", {"rule": name, "schedule": "sequential"})
+            break
+    for k in range(1, len(ref) + 1):
+        q = build_furniture(with_alt)
+        it = q.evaluate()
+        st, taken = guarded(lambda: [fr_(next(it)) for _ in range(k)])
+        guarded(it.close)
         del it
-        st, got = guarded(lambda: [rr(r) for r in q.evaluate()])
-        rep.case(("rule", name, gens, "abandon"))
-        if st == "exc":
-            rep.fail(f"raised::rule-abandon::{'generators' if gens else 'lists'}", f"{name}: {type(got).__name__}: {got}", inp)
-        elif got != ref:
-            rep.fail(f"rule-abandon-then-again::{'generators' if gens else 'lists'}::{'order' if sorted(got) == sorted(ref) else 'content'}",
-                     f"rule tree '{name}' abandoned after one result, then evaluated again: {len(got)} inferred instances, alone {len(ref)}", dict(inp, schedule="abandon"))
+        st2, again = guarded(lambda: [fr_(r) for r in q.evaluate()])
+        rep.case(("rule", name, "abandon", k))
+        if st == "exc" or taken != ref[:k]:
+            rep.fail("rule-abandon-prefix::lists::content", f"rule '{name}': first {k} results are {taken if st == 'ok' else type(taken).__name__}", {"rule": name, "schedule": f"abandon-{k}"})
+        elif st2 == "exc" or again != ref:
+            rep.fail("rule-abandon-then-again::lists::content", f"rule '{name}' abandoned (closed) after {k} results, then evaluated again: "
+                     f"{len(again) if st2 == 'ok' else type(again).__name__} results, alone {len(ref)}", {"rule": name, "schedule": f"abandon-{k}"})
+            break
 rep.finish()
